@@ -21,7 +21,8 @@ InitWith(sc) ==
   /\ cancelled = [g \in Gs |-> FALSE] /\ last = [g \in Gs |-> None]
 TraceInit == l = 2 /\ InitWith(Trace[1].scen)
 
-Silent == (\E g \in Gs : Get(g) \/ Add(g) \/ FastRead(g) \/ Lock(g) \/ Recheck(g) \/ Store(g) \/ Abandon(g)) /\ UNCHANGED l
+\* (Evict: only in the configuration with Evicts = TRUE - rounds run with a cache of one entry, or none)
+Silent == ((\E g \in Gs : Get(g) \/ Add(g) \/ FastRead(g) \/ Lock(g) \/ Recheck(g) \/ Store(g) \/ Abandon(g)) \/ (\E k \in Keys : Evict(k))) /\ UNCHANGED l
 ObsStart == Has /\ Ev.e = "start" /\ Call(Ev.g, Ev.k) /\ l' = l + 1
 ObsUpq == /\ Has /\ Ev.e = "upq" /\ up = Ev.up /\ gen[Ev.k] = Ev.gen
           /\ \E g \in Gs : key[g] = Ev.k /\ Fetch(g)
